@@ -4,7 +4,7 @@
    Not covered (the model answers Unk, i.e. "not modelled"): regexp, lower/upper/trim on strings
    with a non-ASCII byte, replace with an empty pattern. *)
 From Coq Require Import String Ascii.
-From Formula Require Import Sem.Eval.
+From Formula Require Import Sem.Eval Proofs.Utf8Facts.
 Local Open Scope Z_scope.
 
 Arguments str s%string.
@@ -613,9 +613,35 @@ Proof.
   eexists. split; [reflexivity|]. apply replace_go_spec; [rewrite Eo; discriminate|lia].
 Qed.
 
+(* an empty pattern matches before every character and once at the end (characters as utf8.DecodeRune walks
+   the text: an invalid byte is a character of its own) *)
 Theorem replace_empty_pattern off s new :
-  builtin_apply off (str "replace") [VStr s; VStr []; VStr new] = Unk.
+  builtin_apply off (str "replace") [VStr s; VStr []; VStr new] =
+  Ok (VStr (new ++ flat_map (fun st => snd st ++ new) (decode_all s))).
 Proof. reflexivity. Qed.
+
+(* on ASCII text: new, then every byte followed by new; the length grows by (len s + 1) * len new *)
+Lemma replace_empty_ascii s new : Forall (fun b => 0 <= b < 128) s ->
+  flat_map (fun st => snd st ++ new) (decode_all s) = flat_map (fun b => b :: new) s.
+Proof.
+  induction 1 as [|b t Hb Ht IH]; [reflexivity|].
+  cbn [decode_all]. destruct (b <? 128) eqn:E; [|lia]. cbn [flat_map snd app]. rewrite IH. reflexivity.
+Qed.
+
+(* replacing the empty pattern by the empty text changes nothing, whatever the bytes *)
+Lemma replace_empty_with_empty off s :
+  builtin_apply off (str "replace") [VStr s; VStr []; VStr []] = Ok (VStr s).
+Proof.
+  rewrite replace_empty_pattern. cbn [app]. f_equal. f_equal.
+  rewrite <- (Utf8Facts.decode_all_bytes s) at 2. unfold steps_bytes.
+  induction (decode_all s) as [|st l IH]; [reflexivity|]. cbn [flat_map map concat]. rewrite app_nil_r, IH. reflexivity.
+Qed.
+
+Example replace_empty_examples :
+  builtin_apply 0 (str "replace") [VStr (str "ab"); VStr []; VStr (str "-")] = Ok (VStr (str "-a-b-")) /\
+  builtin_apply 0 (str "replace") [VStr []; VStr []; VStr (str "x")] = Ok (VStr (str "x")) /\
+  builtin_apply 0 (str "replace") [VStr [195; 169; 255; 97]; VStr []; VStr [46]] = Ok (VStr [46; 195; 169; 46; 255; 46; 97; 46]).
+Proof. vm_compute. repeat split. Qed.
 
 (* any result satisfying the specification is the builtin's result *)
 Lemma replace_by_spec off s old new r : old <> [] -> replaced old new s r ->
